@@ -193,7 +193,8 @@ fn run1<T: MV>(case: &Value, out: &mut Out) {
     let mut first = true; let mut k = 0usize;
     for op0 in case["ops"].as_array().unwrap() {
         for op in expand1(op0, xn.len(), nv, &xn) {
-            let pre = if first { Some(json!({"xn": case["xn"], "yn": [], "nv": nv, "vars": proj1(&m, sc.sv)})) } else { None };
+            // the history starts from the model's fresh mesh (all zeros), NOT from a projection of the implementation
+            let pre = if first { Some(json!({"xn": case["xn"], "yn": [], "nv": nv, "vars": vec![vec![0i64; nv]; xn.len()]})) } else { None };
             if let Some(mut e) = step1(&mut m, &op, &sc, cid, k) {
                 e["cid"] = json!(cid); e["k"] = json!(k); e["kind"] = json!("m1"); e["ty"] = json!(T::NAME);
                 if let Some(p) = pre { e["pre"] = p; first = false; }
@@ -272,7 +273,7 @@ fn run2<T: MV>(case: &Value, out: &mut Out) {
     let mut first = true; let mut k = 0usize;
     for op0 in case["ops"].as_array().unwrap() {
         for op in expand2(op0, nx, ny, nv) {
-            let pre = if first { Some(json!({"xn": case["xn"], "yn": case["yn"], "nv": nv, "vars": proj2(&m, sc.sv)})) } else { None };
+            let pre = if first { Some(json!({"xn": case["xn"], "yn": case["yn"], "nv": nv, "vars": vec![vec![vec![0i64; nv]; ny]; nx]})) } else { None };
             if let Some(mut e) = step2(&mut m, &op, &sc) {
                 e["cid"] = json!(cid); e["k"] = json!(k); e["kind"] = json!("m2"); e["ty"] = json!(T::NAME);
                 if let Some(p) = pre { e["pre"] = p; first = false; }
